@@ -19,7 +19,9 @@ Trace == ndJsonDeserialize("@@TRACE@@")
 TraceConns == {Trace[i].c : i \in {j \in 1..Len(Trace) : "c" \in DOMAIN Trace[j]}}
 TraceSKeys == {Trace[i].s : i \in {j \in 1..Len(Trace) : Trace[j].ev = "setup.ret"}} \ {""}
 TraceNums == {Trace[i].tr : i \in 1..Len(Trace)}
-EndOf(t) == CHOOSE i \in 1..Len(Trace) : Trace[i].tr = t /\ Trace[i].ev = "end"
+\* position of each trace's end event (a constant function: computed once)
+EndIdx == [t \in TraceNums |-> CHOOSE i \in 1..Len(Trace) : Trace[i].tr = t /\ Trace[i].ev = "end"]
+EndOf(t) == EndIdx[t]
 
 VARIABLES l
 tvars == <<vars, l>>
@@ -30,7 +32,7 @@ C == E.c
 
 TInit == Init /\ l = 1
 
-ResetAll(window, queue, pubpar, subpar, auth) ==
+ResetAll(window, queue, pubpar, subpar, auth, ackmode) ==
   /\ link' = [c \in Conns |-> "none"]
   /\ up' = [c \in Conns |-> <<>>]
   /\ down' = [c \in Conns |-> <<>>]
@@ -42,13 +44,13 @@ ResetAll(window, queue, pubpar, subpar, auth) ==
   /\ pubctx' = [c \in Conns |-> Ctx0]
   /\ sess' = [k \in SKeys |-> Sess0]
   /\ retained' = {}
-  /\ cfg' = [window |-> window, queue |-> queue, pubpar |-> pubpar, subpar |-> subpar, auth |-> auth]
+  /\ cfg' = [window |-> window, queue |-> queue, pubpar |-> pubpar, subpar |-> subpar, auth |-> auth, ackmode |-> ackmode]
   /\ closing' = FALSE
   /\ ghost' = [handed |-> <<>>, acked |-> {}, willpub |-> <<>>]
 
 T_Config ==
   /\ l <= Len(Trace) /\ E.ev = "config" /\ TLCSet(2, l) /\ l' = l + 1
-  /\ ResetAll(E.window, E.queue, E.pubpar, E.subpar, E.auth)
+  /\ ResetAll(E.window, E.queue, E.pubpar, E.subpar, E.auth, E.ackmode)
 
 NoChange == UNCHANGED vars
 
@@ -136,7 +138,7 @@ T_Silent ==
 T_Skip ==
   /\ l <= Len(Trace) /\ E.ev # "config"
   /\ l' = EndOf(E.tr) + 1
-  /\ ResetAll(0, 0, 0, 0, FALSE)
+  /\ ResetAll(0, 0, 0, 0, FALSE, "")
 
 TNext == T_Config \/ T_PeerSide \/ T_Conn \/ T_Backend \/ T_Session \/ T_Settle \/ T_End \/ T_Silent \/ T_Skip
 TSpec == TInit /\ [][TNext]_tvars
